@@ -1,6 +1,6 @@
 (** Statement pins for C06: the headline theorems must have exactly these
     types, so they cannot be weakened silently. *)
-From RsM Require Import Lib.MachInt Model.Acl Model.AclSpec Model.Im Model.ImSpec.
+From RsM Require Import Lib.MachInt Model.Acl Model.AclSpec Model.Im Model.ImSpec Model.ImEvents.
 From RsM Require Import Proofs.ImExpand Proofs.ImRun Proofs.ImSound Proofs.ImTheorems Proofs.ImResume Proofs.ImChunked Props.C06.
 Open Scope N_scope.
 
@@ -121,3 +121,29 @@ Check (C06_chunked_monitor_sound :
   wf_node nd = true -> wf_fabrics fabs = true ->
   holds_chunked max_paths who (mkCfg nd fabs) [] win ff chunks resps = true ->
   resps = spec_write_chunked max_paths who nd fabs win ff chunks).
+Check (C06_event_exact :
+  forall (fabs : list fabric) (who : accessor) (nd : node),
+  wf_fabrics fabs = true -> wf_node_events nd = true ->
+  forall (paths : list gpath) (queue : list qevent),
+  read_events fabs who nd paths queue = spec_read_events nd fabs who paths queue).
+Check (C06_event_wildcard_exact :
+  forall (fabs : list fabric) (who : accessor) (nd : node),
+  wf_fabrics fabs = true -> wf_node_events nd = true ->
+  forall (p : gpath) (queue : list qevent),
+  is_wildcard p = true ->
+  read_events fabs who nd [p] queue
+  = RespItems (map event_out (permitted_events nd fabs who [p] queue)) []).
+Check (C06_event_subscribe_exact :
+  forall (fabs : list fabric) (who : accessor) (nd : node),
+  wf_fabrics fabs = true -> wf_node_events nd = true ->
+  forall (paths : list gpath) (queue : list qevent),
+  subscribe_events fabs who nd paths queue = spec_subscribe_events nd fabs who paths queue).
+Check (C06_event_fabric_sensitive :
+  forall (fabs : list fabric) (who : accessor) (nd : node) (paths : list gpath)
+         (queue : list qevent) (ev : qevent) (f : N),
+  In ev (filter (event_reported fabs who nd paths) queue) -> qe_fab ev = Some f -> f = a_fab who).
+Check (C06_group_members_only :
+  forall (nd : node) (fabs : list fabric) (who : accessor) (op : operation) (timed : bool)
+         (flt : N -> N -> N -> bool) (items : list item) (e c l : N) (tag : option N),
+  In (OData e c l tag) (request_spec nd fabs who op timed flt items) ->
+  spec_endpoint fabs who e = true).
